@@ -22,7 +22,8 @@ theorem induct' {M : GVal → Prop}
     (tuple : ∀ xs, (∀ x ∈ xs, M x) → M (.tuple xs))
     (set : ∀ xs, (∀ x ∈ xs, M x) → M (.set xs))
     (dict : ∀ xs, (∀ x ∈ xs, M x) → M (.dict xs))
-    (dt : ∀ a, M (.dt a)) (uuid : ∀ n, M (.uuid n)) (cplx : ∀ a b, M (.cplx a b)) : ∀ v, M v := by
+    (dt : ∀ a, M (.dt a)) (uuid : ∀ n, M (.uuid n)) (cplx : ∀ a b, M (.cplx a b))
+    (inf : ∀ n, M (.inf n)) : ∀ v, M v := by
   intro v
   induction v using GVal.rec (motive_2 := fun xs => ∀ x ∈ xs, M x) with
   | none => exact none
@@ -37,6 +38,7 @@ theorem induct' {M : GVal → Prop}
   | dt a => exact dt a
   | uuid n => exact uuid n
   | cplx a b => exact cplx a b
+  | inf n => exact inf n
   | nil => rename_i x hx; cases hx
   | cons h t ihh iht =>
     rename_i x hx
@@ -82,6 +84,7 @@ theorem pyEq_refl : ∀ a : GVal, pyEq a a = true := by
   | dt a => simp [pyEq]
   | uuid n => simp [pyEq]
   | cplx a b => simp [pyEq]
+  | inf n => simp [pyEq]
 
 end GVal
 
@@ -133,10 +136,54 @@ theorem scale_lt {a b : Int} : a * scale < b * scale ↔ a < b := by
 /-- Comparing a generated int with an int (or bool) bound. -/
 theorem pyCmp_int_asInt {v : GVal} {n : Int} (h : asInt v = some n) (a : Int) :
     pyCmp (.int a) v = some (cmpInt (a * scale) (n * scale)) := by
-  simp [pyCmp, num_of_asInt h]
+  have hn := num_of_asInt h
+  cases v <;> simp [asInt] at h <;> simp [pyCmp, cmpNum, hn]
 
 theorem pyCmp_flt (a k : Int) : pyCmp (.flt a) (.flt k) = some (cmpInt a k) := by
-  simp [pyCmp, num]
+  simp [pyCmp, cmpNum, num]
+
+/-! ### floats with the infinities: the order of `evalG` on `XF.val` is the order of `XF` -/
+
+theorem pyGe_val (a b : XF) : pyGe a.val b.val = .ok (XF.le b a) := by
+  cases a with
+  | fin x => cases b with
+    | fin y => simp [XF.val, pyGe, pyCmp, cmpNum, num, ofCmp, cmpInt_isGe, XF.le]
+    | inf n => cases n <;> simp [XF.val, pyGe, pyCmp, cmpNum, ofCmp, Cmp.isGe, XF.le]
+  | inf m => cases m <;> cases b with
+    | fin y => simp [XF.val, pyGe, pyCmp, cmpInf, num, ofCmp, Cmp.isGe, XF.le]
+    | inf n => cases n <;> simp [XF.val, pyGe, pyCmp, cmpInf, ofCmp, Cmp.isGe, XF.le]
+
+theorem pyGt_val (a b : XF) : pyGt a.val b.val = .ok (XF.lt b a) := by
+  cases a with
+  | fin x => cases b with
+    | fin y => simp [XF.val, pyGt, pyCmp, cmpNum, num, ofCmp, cmpInt_isGt, XF.lt_fin]
+    | inf n => cases n <;> simp [XF.val, pyGt, pyCmp, cmpNum, ofCmp, Cmp.isGt, XF.lt, XF.le]
+  | inf m => cases m <;> cases b with
+    | fin y => simp [XF.val, pyGt, pyCmp, cmpInf, num, ofCmp, Cmp.isGt, XF.lt, XF.le]
+    | inf n => cases n <;> simp [XF.val, pyGt, pyCmp, cmpInf, ofCmp, Cmp.isGt, XF.lt, XF.le]
+
+theorem pyLe_val (a b : XF) : pyLe a.val b.val = .ok (XF.le a b) := by
+  cases a with
+  | fin x => cases b with
+    | fin y => simp [XF.val, pyLe, pyCmp, cmpNum, num, ofCmp, cmpInt_isLe, XF.le]
+    | inf n => cases n <;> simp [XF.val, pyLe, pyCmp, cmpNum, ofCmp, Cmp.isLe, XF.le]
+  | inf m => cases m <;> cases b with
+    | fin y => simp [XF.val, pyLe, pyCmp, cmpInf, num, ofCmp, Cmp.isLe, XF.le]
+    | inf n => cases n <;> simp [XF.val, pyLe, pyCmp, cmpInf, ofCmp, Cmp.isLe, XF.le]
+
+theorem pyLt_val (a b : XF) : pyLt a.val b.val = .ok (XF.lt a b) := by
+  cases a with
+  | fin x => cases b with
+    | fin y => simp [XF.val, pyLt, pyCmp, cmpNum, num, ofCmp, cmpInt_isLt, XF.lt_fin]
+    | inf n => cases n <;> simp [XF.val, pyLt, pyCmp, cmpNum, ofCmp, Cmp.isLt, XF.lt, XF.le]
+  | inf m => cases m <;> cases b with
+    | fin y => simp [XF.val, pyLt, pyCmp, cmpInf, num, ofCmp, Cmp.isLt, XF.lt, XF.le]
+    | inf n => cases n <;> simp [XF.val, pyLt, pyCmp, cmpInf, ofCmp, Cmp.isLt, XF.lt, XF.le]
+
+/-- `+inf` is above every int, whatever its magnitude (no sentinel in the order). -/
+theorem inf_gt_int (n : Int) : pyGt (.inf false) (.int n) = .ok true ∧ pyLt (.inf true) (.int n) = .ok true
+    ∧ pyLt (.int n) (.inf false) = .ok true ∧ pyEq (.inf false) (.int n) = false := by
+  simp [pyGt, pyLt, pyCmp, cmpInf, cmpNum, num, ofCmp, Cmp.isGt, Cmp.isLt, pyEq]
 
 theorem pyCmp_dt (a b : Int) : pyCmp (.dt a) (.dt b) = some (cmpInt a b) := by
   simp [pyCmp]
